@@ -16,7 +16,8 @@ EXPLANATION = (
     "without a unit of credit (= C03.R1). Given the documented AtomicWaker contract, R1-R3 are the standard "
     "sufficient condition for 'no lost wake-up', so the memory-model quantifier is discharged by that contract.")
 EXPLANATION_ADDED = '(R4) the credit take succeeds only through the CAS decrement, including the re-check after register (=C03.R2).'
-EXPLANATION = EXPLANATION + " Added while testing against seeded changes: " + EXPLANATION_ADDED
+EXPLANATION_ADDED2 = ' (R5) the stream-closing cells of the reaction table set the closed flag and wake; R1 also decides the polarity of the re-check after register.'
+EXPLANATION = EXPLANATION + " Added while testing against seeded changes: " + EXPLANATION_ADDED + EXPLANATION_ADDED2
 ASSUMPTIONS = [
     "futures AtomicWaker contract: a wake() that happens after register() wakes the registered task, and loads "
     "performed after register() observe writes made before a concurrent wake()",
